@@ -12,7 +12,7 @@ while [ ! -e $BASE/STOP ]; do
     while [ $(ls $BASE/C*/m*/.evaluating 2>/dev/null | wc -l) -ge $PAR ]; do sleep 5; done
     touch "$d/.evaluating"
     p=$(basename $(dirname $d))
-    ( python3 tools/seed_eval.py $p $d --all-checks > $d/eval.log 2>&1; rm -f $d/.evaluating ) &
+    ( python3 tools/seed_eval.py $p $d ${EVAL_FLAGS---all-checks} > $d/eval.log 2>&1; rm -f $d/.evaluating ) &
   done
   sleep 20
 done
